@@ -19,8 +19,9 @@ if "--also" in args:
     i = args.index("--also"); extra = args[i+1].split(","); del args[i:i+2]
 SEEDED = os.environ.get("VERIF_SEEDED", os.path.join(VERIF, "seeded"))
 names = args or sorted(os.listdir(SEEDED))
-TREE = "/repo" if in_repo else "/tmp/wt-mut"
-env = dict(os.environ, VERIF_EVIDENCE_DIR=os.path.join(VERIF, "work", "evidence-mut"))
+TAG = os.environ.get("VERIF_MUT_TAG", "")  # several instances may run side by side, each with its own tag (own scratch tree, own result file)
+TREE = "/repo" if in_repo else "/tmp/wt-mut" + ("-" + TAG if TAG else "")
+env = dict(os.environ, VERIF_EVIDENCE_DIR=os.path.join(VERIF, "work", "evidence-mut" + ("-" + TAG if TAG else "")))
 if not in_repo:
     env["VERIF_REPO"] = TREE
     head = subprocess.run("git -C /repo rev-parse HEAD", shell=True, capture_output=True, text=True).stdout.strip()
@@ -60,7 +61,7 @@ for n in names:
     finally:
         subprocess.run("git -C %s checkout -- . && git -C %s clean -fdq" % (TREE, TREE), shell=True)
 assert clean()
-out = os.path.join(VERIF, "work", "mutants-%s.json" % tier)
+out = os.path.join(VERIF, "work", "mutants-%s%s.json" % (tier, "-" + TAG if TAG else ""))
 prev = json.load(open(out)) if os.path.exists(out) else {}
 prev.update(results)
 json.dump(prev, open(out, "w"), indent=1)
